@@ -26,10 +26,10 @@ type exm struct {
 }
 
 type ent struct {
-	Kind   string     // "type" "help" "unit" "comment" "series" "native"
-	Name   string     // metric (family) name
-	Typ    string     // for type
-	Text   string     // help / unit / comment text
+	Kind   string      // "type" "help" "unit" "comment" "series" "native"
+	Name   string      // metric (family) name
+	Typ    string      // for type
+	Text   string      // help / unit / comment text
 	Labels [][2]string // without __name__, any order
 	Val    float64
 	Ts     *int64 // ms
@@ -41,7 +41,7 @@ type ent struct {
 // ---- observed entry (one Next() of a real parser) ----------------------------------------
 
 type obsEx struct {
-	ID int   // generated id; negated if labels/value differ; 0 = zero value
+	ID int    // generated id; negated if labels/value differ; 0 = zero value
 	Ts *int64 // HasTs / Ts as observed
 }
 
@@ -212,7 +212,7 @@ func record(p textparse.Parser, callST bool, known map[int]exm) (out []obsEntry,
 				case fh != nil:
 					o.Kind, o.Hid = "hist", int(fh.Count)
 				default:
-					return out, false, "harness: EntryHistogram without histogram"
+					return out, false, fmt.Sprintf("harness: EntryHistogram without histogram after %d entries", len(out))
 				}
 			}
 			p.Labels(&l)
